@@ -21,6 +21,15 @@ def olc_binary(asan=True):
     return build("olc_runner" + ("_asan" if asan else ""), ["engines/sched/olc_runner.cpp"], olc_flags(asan))
 
 
+def qsbr_binary(asan=True):
+    return build("qsbr_runner" + ("_asan" if asan else ""), ["engines/sched/qsbr_runner.cpp"], olc_flags(asan),
+                 repo_sources=["qsbr.cpp", "qsbr_ptr.cpp"])
+
+
+def binary_for(sc):
+    return {"olc": olc_binary, "qsbr": qsbr_binary}[sc.get("runner", "olc")](True)
+
+
 def read_progress(path):
     try:
         data = open(path, "rb").read()
@@ -36,9 +45,16 @@ def read_progress(path):
 
 
 def scenario_args(sc):
-    a = ["--id", sc["id"], "--init", ",".join(sc["init"])]
-    for t in sc["threads"]:
-        a += ["--thread", ";".join(t)]
+    if sc.get("runner", "olc") == "qsbr":
+        a = ["--id", sc["id"]]
+        for t in sc["threads"]:
+            a += ["--thread", t if t else "-"]
+    else:
+        a = ["--id", sc["id"], "--init", ",".join(sc["init"])]
+        for t in sc["threads"]:
+            a += ["--thread", ";".join(t)]
+    if sc.get("delay_bounded"):
+        a += ["--delay-bounded"]
     return a
 
 
@@ -85,9 +101,10 @@ def confirm(binary, sc, choices, want_prop, want_sig_prefix, want_rc, tmpdir):
     return True, ""
 
 
-def run_scenarios(prop, tier, scenarios, deadline_s, runner="olc", extra_assumptions=None):
+def run_scenarios(prop, tier, scenarios, deadline_s, runner="olc", extra_assumptions=None, rule=None, assumptions=None):
     t0 = time.time()
-    binary = olc_binary(True)
+    binary = binary_for(scenarios[0]) if scenarios else olc_binary(True)
+    engine_name = "sched/" + (scenarios[0].get("runner", "olc") if scenarios else "olc")
     tmpdir = tempfile.mkdtemp(prefix="verif-a-", dir=os.path.join(BUILD))
     report = Report(prop)
     jobs = []
@@ -132,7 +149,7 @@ def run_scenarios(prop, tier, scenarios, deadline_s, runner="olc", extra_assumpt
             else:
                 agg["incomplete"] += 1
             if len(samples) < 3 and r["samples"]:
-                samples.append(dict(scenario=sc["id"], init=sc["init"], threads=sc["threads"], bound=sc["bound"],
+                samples.append(dict(scenario=sc["id"], init=sc.get("init"), threads=sc["threads"], bound=sc["bound"],
                                     schedule_and_events=r["samples"][0][:1500]))
             seen_sig = set()
             for v in r["violations"]:
@@ -143,7 +160,7 @@ def run_scenarios(prop, tier, scenarios, deadline_s, runner="olc", extra_assumpt
                 if not ok:
                     report.infra_errors.append("unconfirmed violation in %s: %s" % (sc["id"], why))
                     continue
-                payload = dict(engine="sched/olc", scenario=dict(id=sc["id"], init=sc["init"], threads=sc["threads"]),
+                payload = dict(engine=engine_name, scenario={k: sc[k] for k in ("id", "init", "threads", "runner", "delay_bounded") if k in sc},
                                choices=v["choices"], preemptions=v["preemptions"], property=v["property"],
                                signature=v["signature"], what=v["what"], build_flags=olc_flags(True))
                 report.violation(v["property"], v["signature"], v["what"], payload, sc["id"])
@@ -159,7 +176,7 @@ def run_scenarios(prop, tier, scenarios, deadline_s, runner="olc", extra_assumpt
                 report.infra_errors.append("unconfirmed fatal verdict in %s (rc=%r, %s): %s" % (sc["id"], rc, pr["what"], why))
                 continue
             what = pr["what"] or ("runner ended with status %r: %s" % (rc, se[-300:]))
-            payload = dict(engine="sched/olc", scenario=dict(id=sc["id"], init=sc["init"], threads=sc["threads"]),
+            payload = dict(engine=engine_name, scenario={k: sc[k] for k in ("id", "init", "threads", "runner", "delay_bounded") if k in sc},
                            choices=pr["choices"], property=vprop, signature=vsig, what=what, exit_status=rc,
                            stderr_tail=se[-1500:], build_flags=olc_flags(True))
             agg["violations_total"] += 1
@@ -168,12 +185,12 @@ def run_scenarios(prop, tier, scenarios, deadline_s, runner="olc", extra_assumpt
     wall = time.time() - t0
     exhaustive = agg["scen_skipped"] == 0 and agg["incomplete"] == 0 and not report.infra_errors
     if not samples:
-        samples = [dict(scenario=s["id"], init=s["init"], threads=s["threads"], bound=s["bound"]) for s in scenarios[:3]]
+        samples = [dict(scenario=s["id"], init=s.get("init"), threads=s["threads"], bound=s["bound"]) for s in scenarios[:3]]
     coverage = dict(
         states=max(agg["tree_nodes"], 1), transitions=max(agg["points"], 1),
         traces_validated_against_impl=agg["executions"], evaluations=max(agg["executions"], 1),
         distinct_nontrivial=agg["overlapping"],
-        rule="every schedule of each scenario (2-3 real threads on the real olc_db) with at most `bound` preemptions, "
+        rule=rule or "every schedule of each scenario (2-3 real threads on the real olc_db) with at most `bound` preemptions, "
              "every hooked atomic access a scheduling point; non-trivial = distinct (scenario, observed results) pairs in "
              "which operations of two threads overlapped in the global stamp order",
         samples=samples, exhaustive=exhaustive,
@@ -182,12 +199,13 @@ def run_scenarios(prop, tier, scenarios, deadline_s, runner="olc", extra_assumpt
         executions_by_preemptions=agg["by_pre"][:6], distinct_outcomes=agg["outcomes"],
         scenarios_with_single_outcome=agg["one_outcome"], frees_during_concurrent_phase=agg["frees"],
         max_branching_points_per_execution=agg["max_trace"], oracle_violations_seen=agg["violations_total"])
-    assumptions = [
+    assumptions = assumptions or [
         "sequentially consistent interleavings only; compare_exchange_weak treated as strong (x86)",
         "plain (non-atomic) accesses are not scheduling points; AddressSanitizer is active on all of them",
         "uint64 keys; 2-3 threads, 1-6 operations each; preemption bound per scenario as reported",
         "replay determinism: every violation re-executed twice from its schedule before being reported",
-    ] + (extra_assumptions or [])
+    ]
+    assumptions = assumptions + (extra_assumptions or [])
     nviol = len(report.violations)
     write_evidence(prop, tier, "model_checking", coverage, wall, nviol, assumptions)
     log("%s %s: %d executions, %d points, %.1fs, %d violation(s), exhaustive=%s" %
